@@ -64,6 +64,12 @@ class PolyAFixer:
 
         polya_exon_count = self.count_polya_exons(read_exons, polya_info.internal_polya_pos)
         polyt_exon_count = self.count_polyt_exons(read_exons, polya_info.internal_polyt_pos)
+        # a genuine tail at one end tells which end is the 3' one: a T-rich (A-rich) terminal exon at the other end
+        # is a part of the molecule
+        if polya_info.external_polya_pos != -1 and polya_info.external_polyt_pos == -1:
+            polyt_exon_count = 0
+        elif polya_info.external_polyt_pos != -1 and polya_info.external_polya_pos == -1:
+            polya_exon_count = 0
 
         if polyt_exon_count > 0 and polya_exon_count > 0:
             logger.debug("Both PolyA and PolyT fake terminal exons found: %d, %d" % (polya_exon_count, polyt_exon_count))
